@@ -83,3 +83,42 @@ func verifScenarioRecordRoundTrip() {
 	vnd.Assert(err == ErrLocationRecordInvalid, "a record whose block reference no longer resolves is not reported invalid")
 	vnd.Observe("rt", uint64(slot), uint64(dev.writes))
 }
+
+// verifScenarioRecordRoundTripGrid: the same round trip over a grid of CONCRETE records
+// (attempts 0/1/31, offsets below and beyond 4 GiB, several seeds). The symbolic lemma
+// above decides the codec for all values when encoder and decoder agree syntactically; when
+// they do not (a field written after the checksum was taken, say) its question becomes an
+// FNV collision question the solver cannot answer, and the run is merely inconclusive. On
+// concrete values the real checksum is simply computed.
+func verifScenarioRecordRoundTripGrid() {
+	const slots = 2
+	dev := &verifRecDevice{image: make([]byte, slots*BlockDeviceBackedLocationRecordSize)}
+	seeds := []uint64{0, 0x0123456789abcdef, ^uint64(0)}
+	res := &verifRecResolver{
+		ref:   BlockReference{EpochID: 0x01020304, BlocksFromLast: 0x0506},
+		seed:  seeds[vnd.Choose(3)],
+		index: 3,
+		found: true,
+	}
+	res.seedRead = res.seed
+	lra := NewBlockDeviceBackedLocationRecordArray(dev, res)
+	attempts := []uint32{0, 1, 31}
+	offsets := []int64{0, 4096, 1<<32 + 8192, 1<<62 + 1}
+	rec := LocationRecord{
+		RecordKey: LocationRecordKey{Attempt: attempts[vnd.Choose(3)]},
+		Location:  Location{BlockIndex: 3, OffsetBytes: offsets[vnd.Choose(4)], SizeBytes: 1<<33 + 7},
+	}
+	for i := range rec.RecordKey.Key {
+		rec.RecordKey.Key[i] = byte(0xa0 + i)
+	}
+	slot := vnd.Choose(slots)
+	vnd.Assert(lra.Put(slot, rec) == nil, "Put failed on a working device")
+	got, err := lra.Get(slot)
+	vnd.Assert(err == nil, "a record just written does not read back as valid")
+	vnd.Assert(got == rec, "record read back differs from the record written")
+	vnd.Cover("grid-roundtrip")
+	// a record read with another seed (another epoch's hash seed) is invalid
+	res.seedRead = res.seed + 1
+	_, err = lra.Get(slot)
+	vnd.Assert(err == ErrLocationRecordInvalid, "a record validated under another epoch's hash seed")
+}
